@@ -32,30 +32,30 @@ inductive DecNext (H σ : Type)
 
 /-- state of `sync::DecodeResponseIter` and of `fsm::ResponseDecoder` -/
 structure Dec (H : Type) where
-  /-- the rest of the response plan -/
-  plan : List Chunk
+  /-- the response plan iterator (`ResponseIterRef` / `ResponseIter`) -/
+  iter : PrePartial
   /-- pending hashes, top = head -/
   stack : List H
   /-- the encoded stream still unread -/
   encoded : List UInt8
-  /-- `ResponseIterRef::tree()` -/
-  tree : Tree
   /-- the root hash field of the fsm decoder -/
   hash : H
 
-/-- `DecodeResponseIter::new` / `ResponseDecoder::new`; `none` = the plan iterator panicked -/
-def Dec.new (root : H) (tree : Tree) (ranges : Ranges) (encoded : List UInt8) : Option (Dec H) :=
-  let ranges := Ranges.truncate ranges tree.size
-  (tree.responseChunks ranges).map fun plan =>
-    { plan, stack := [root], encoded, tree := Response.tree (Response.new tree ranges), hash := root }
+/-- `DecodeResponseIter::tree` / `ResponseDecoder::tree` -/
+def Dec.tree (d : Dec H) : Tree := Response.tree d.iter
+
+/-- `DecodeResponseIter::new` / `ResponseDecoder::new` -/
+def Dec.new (root : H) (tree : Tree) (ranges : Ranges) (encoded : List UInt8) : Dec H :=
+  { iter := Response.new tree (Ranges.truncate ranges tree.size), stack := [root], encoded, hash := root }
 
 /-- `DecodeResponseIter::next` (sync): pop and compare, then push the children -/
 def Dec.nextSync (hf : HashFns H) [BEq H] (d : Dec H) : DecNext H (Dec H) :=
-  match d.plan with
-  | [] => .done d
-  | .parent node isRoot left right _ :: plan =>
+  match Response.next d.iter with
+  | .done => .done d
+  | .panic => .panic
+  | .item (.parent node isRoot left right _) iter =>
     match readExact d.encoded 64 with
-    | .error e => .err (DecodeError.maybeParentNotFound e node) { d with plan }
+    | .error e => .err (DecodeError.maybeParentNotFound e node) { d with iter }
     | .ok (buf, rest) =>
       let (l, r) := parsePair hf buf
       match d.stack with
@@ -63,31 +63,32 @@ def Dec.nextSync (hf : HashFns H) [BEq H] (d : Dec H) : DecNext H (Dec H) :=
       | parentHash :: stack =>
         let actual := hf.parentCv l r isRoot
         if parentHash != actual then
-          .err (.parentHashMismatch node) { d with plan, stack, encoded := rest }
+          .err (.parentHashMismatch node) { d with iter, stack, encoded := rest }
         else
           let stack := if right then r :: stack else stack
           let stack := if left then l :: stack else stack
-          .item (.parent node l r) { d with plan, stack, encoded := rest }
-  | .leaf start size isRoot _ :: plan =>
+          .item (.parent node l r) { d with iter, stack, encoded := rest }
+  | .item (.leaf start size isRoot _) iter =>
     match readExact d.encoded size with
-    | .error e => .err (DecodeError.maybeLeafNotFound e start) { d with plan }
+    | .error e => .err (DecodeError.maybeLeafNotFound e start) { d with iter }
     | .ok (buf, rest) =>
       let actual := hashSubtree hf start buf isRoot
       match d.stack with
       | [] => .panic
       | leafHash :: stack =>
         if leafHash != actual then
-          .err (.leafHashMismatch start) { d with plan, stack, encoded := rest }
+          .err (.leafHashMismatch start) { d with iter, stack, encoded := rest }
         else
-          .item (.leaf (toBytes start) buf) { d with plan, stack, encoded := rest }
+          .item (.leaf (toBytes start) buf) { d with iter, stack, encoded := rest }
 
 /-- `ResponseDecoder::next` (fsm): push the children, then compare -/
 def Dec.nextFsm (hf : HashFns H) [BEq H] (d : Dec H) : DecNext H (Dec H) :=
-  match d.plan with
-  | [] => .done d
-  | .parent node isRoot left right _ :: plan =>
+  match Response.next d.iter with
+  | .done => .done d
+  | .panic => .panic
+  | .item (.parent node isRoot left right _) iter =>
     match readExact d.encoded 64 with
-    | .error e => .err (DecodeError.maybeParentNotFound e node) { d with plan }
+    | .error e => .err (DecodeError.maybeParentNotFound e node) { d with iter }
     | .ok (buf, rest) =>
       let (l, r) := parsePair hf buf
       match d.stack with
@@ -97,21 +98,21 @@ def Dec.nextFsm (hf : HashFns H) [BEq H] (d : Dec H) : DecNext H (Dec H) :=
         let stack := if right then r :: stack else stack
         let stack := if left then l :: stack else stack
         if parentHash != actual then
-          .err (.parentHashMismatch node) { d with plan, stack, encoded := rest }
+          .err (.parentHashMismatch node) { d with iter, stack, encoded := rest }
         else
-          .item (.parent node l r) { d with plan, stack, encoded := rest }
-  | .leaf start size isRoot _ :: plan =>
+          .item (.parent node l r) { d with iter, stack, encoded := rest }
+  | .item (.leaf start size isRoot _) iter =>
     match readExact d.encoded size with
-    | .error e => .err (DecodeError.maybeLeafNotFound e start) { d with plan }
+    | .error e => .err (DecodeError.maybeLeafNotFound e start) { d with iter }
     | .ok (buf, rest) =>
       match d.stack with
       | [] => .panic
       | leafHash :: stack =>
         let actual := hashSubtree hf start buf isRoot
         if leafHash != actual then
-          .err (.leafHashMismatch start) { d with plan, stack, encoded := rest }
+          .err (.leafHashMismatch start) { d with iter, stack, encoded := rest }
         else
-          .item (.leaf (toBytes start) buf) { d with plan, stack, encoded := rest }
+          .item (.leaf (toBytes start) buf) { d with iter, stack, encoded := rest }
 
 def Dec.next (hf : HashFns H) [BEq H] (fl : Flavour) (d : Dec H) : DecNext H (Dec H) :=
   match fl with
@@ -132,7 +133,7 @@ structure DecRun (H : Type) where
   /-- the encoded stream not consumed (meaningful for `done`) -/
   rest : List UInt8
 
-/-- drive a decoder until the first non-item (`fuel` ≥ plan length + 1) -/
+/-- drive a decoder until the first non-item (`fuel` > number of plan items) -/
 def Dec.runAux (hf : HashFns H) [BEq H] (fl : Flavour) : Nat → Dec H → DecRun H
   | 0, d => ⟨[], .panic, d.encoded⟩
   | fuel + 1, d =>
@@ -145,14 +146,12 @@ def Dec.runAux (hf : HashFns H) [BEq H] (fl : Flavour) : Nat → Dec H → DecRu
       { r with items := i :: r.items }
 
 def Dec.run (hf : HashFns H) [BEq H] (fl : Flavour) (d : Dec H) : DecRun H :=
-  Dec.runAux hf fl (d.plan.length + 1) d
+  Dec.runAux hf fl (PrePartial.fuelFor d.iter.tree + 1) d
 
 /-- the full decode of a stream, as an iterator client sees it -/
 def decodeAll (hf : HashFns H) [BEq H] (fl : Flavour) (root : H) (tree : Tree) (ranges : Ranges)
     (encoded : List UInt8) : DecRun H :=
-  match Dec.new root tree ranges encoded with
-  | none => ⟨[], .panic, encoded⟩
-  | some d => d.run hf fl
+  (Dec.new root tree ranges encoded).run hf fl
 
 /-! ## `decode_ranges` -/
 
@@ -194,9 +193,8 @@ def decodeRangesAux (hf : HashFns H) [BEq H] (fl : Flavour) (tree : Tree) :
 def decodeRanges (hf : HashFns H) [BEq H] (fl : Flavour) (encoded : List UInt8) (ranges : Ranges)
     (sink : Sink H) : DecodeRangesRun H :=
   let tree := sink.ob.tree
-  match Dec.new sink.ob.root tree ranges encoded with
-  | none => ⟨sink, .panic, encoded, [], []⟩
-  | some d => decodeRangesAux hf fl tree (d.plan.length + 1) d sink [] []
+  let d := Dec.new sink.ob.root tree ranges encoded
+  decodeRangesAux hf fl tree (PrePartial.fuelFor d.iter.tree + 1) d sink [] []
 
 /-! ## encoders -/
 
